@@ -120,10 +120,10 @@ macro_rules! __parse_closure_2 {
         ($($macro:tt)*) ($($args:tt)*) $usage_site:tt,
         $v:expr $(,)?
     ) => {
-        match $v {func => {
+        match $v {__konst_pc_func => {
             $($macro)* ! {
                 $($args)*
-                ((__x, __y)) -> _ {func(__x, __y)}
+                ((__konst_pc_x, __konst_pc_y)) -> _ {__konst_pc_func(__konst_pc_x, __konst_pc_y)}
             }
         }}
     };
@@ -177,10 +177,10 @@ macro_rules! __parse_closure_1 {
         ($($macro:tt)*) ($($args:tt)*) $usage_site:tt,
         $v:expr $(,)?
     ) => {
-        match $v {func => {
+        match $v {__konst_pc_func => {
             $($macro)* ! {
                 $($args)*
-                (__x) -> _ {func(__x)}
+                (__konst_pc_x) -> _ {__konst_pc_func(__konst_pc_x)}
             }
         }}
     };
